@@ -115,6 +115,7 @@ type snapModel struct {
 	ID   string
 	Root *simfs.Node // the "src" directory that was backed up
 	Orig string      // `original` field of rewritten snapshots
+	Tree string      // root tree ID (filled in lazily by syncModel)
 }
 
 type world struct {
@@ -134,6 +135,7 @@ type world struct {
 	src   map[string]*simfs.FS
 	snaps map[string]*snapModel // acknowledged snapshots still expected to exist
 	// C04: plant markers in generated contents and names
+	keyHint      func() string // key hint for new processes (repositories with more than 20 keys)
 	markers      bool
 	markerList   [][]byte
 	keepMonitors []func(simbe.Mutation, []byte)
@@ -269,6 +271,9 @@ func (w *world) newProcOn(kind, repo string) *proc {
 		Compression: w.cfg.Comp,
 		Backends:    reg,
 		Term:        term,
+	}
+	if w.keyHint != nil {
+		g.KeyHint = w.keyHint()
 	}
 	return &proc{w: w, p: p, cl: cl, gopts: g, term: term, ctx: ctx, cancel: cancel}
 }
